@@ -13,11 +13,14 @@ package simrt
 
 import (
 	"bytes"
+	"context"
 	"fmt"
 	"os"
+	"path/filepath"
 	"reflect"
 	"sort"
 	"sync"
+	"syscall"
 	"time"
 
 	"verifsim/choice"
@@ -63,6 +66,11 @@ type Ctl struct {
 	Host     string
 	// SlowSeed (non-zero): file operations take simulated time, see op()
 	SlowSeed uint64
+	// Killed: the signal that killed the simulated process ("" = it was not killed)
+	Killed string
+	dead   bool
+	// LockedPaths: files on which some other process holds an advisory lock for the whole run
+	LockedPaths []string
 	// StdoutFailFrom: from this write on (1-based; 0 = never) every write to the standard streams fails with ENOSPC
 	StdoutFailFrom int
 	stdWrites      int
@@ -93,6 +101,10 @@ var cur *Ctl
 var mu sync.Mutex
 
 func Begin(c *Ctl) {
+	mu.Lock()
+	sigRegs = nil
+	fdNames = map[uintptr]string{}
+	mu.Unlock()
 	if c.Sites == nil {
 		c.Sites = map[string]*SiteStat{}
 	}
@@ -303,3 +315,131 @@ func Exit(code int) {
 	}
 	panic(ExitPanic{code})
 }
+
+// ---------------------------------------------------------------------------------------
+// signals (os/signal is rewritten to these): a fault of kind SIGTERM/SIGINT at an operation delivers the
+// signal to whatever the program registered; a process without a handler dies at that operation.
+
+var sigByName = map[string]os.Signal{"SIGTERM": syscall.SIGTERM, "SIGINT": syscall.SIGINT}
+
+type sigReg struct {
+	ch     chan<- os.Signal
+	cancel context.CancelFunc
+	sigs   []os.Signal
+}
+
+var sigRegs []*sigReg
+
+func sigMatches(r *sigReg, s os.Signal) bool {
+	if len(r.sigs) == 0 {
+		return true
+	}
+	for _, x := range r.sigs {
+		if x == s {
+			return true
+		}
+	}
+	return false
+}
+
+// deliverSignal reports whether some handler took the signal (mu is held by the caller).
+func deliverSignal(s os.Signal) bool {
+	took := false
+	for _, r := range sigRegs {
+		if !sigMatches(r, s) {
+			continue
+		}
+		took = true
+		if r.ch != nil {
+			select {
+			case r.ch <- s:
+			default:
+			}
+		}
+		if r.cancel != nil {
+			r.cancel()
+		}
+	}
+	if cur != nil {
+		cur.WorldUse["signal-delivered"]++
+	}
+	return took
+}
+
+func SignalNotify(c chan<- os.Signal, sig ...os.Signal) {
+	use("signal-handler")
+	mu.Lock()
+	sigRegs = append(sigRegs, &sigReg{ch: c, sigs: sig})
+	mu.Unlock()
+}
+
+func SignalNotifyContext(parent context.Context, sig ...os.Signal) (context.Context, context.CancelFunc) {
+	use("signal-handler")
+	ctx, cancel := context.WithCancel(parent)
+	r := &sigReg{cancel: cancel, sigs: sig}
+	mu.Lock()
+	sigRegs = append(sigRegs, r)
+	mu.Unlock()
+	return ctx, func() {
+		mu.Lock()
+		for i, x := range sigRegs {
+			if x == r {
+				sigRegs = append(sigRegs[:i], sigRegs[i+1:]...)
+				break
+			}
+		}
+		mu.Unlock()
+		cancel()
+	}
+}
+
+func SignalStop(c chan<- os.Signal) {
+	mu.Lock()
+	for i := 0; i < len(sigRegs); i++ {
+		if sigRegs[i].ch == c {
+			sigRegs = append(sigRegs[:i], sigRegs[i+1:]...)
+			i--
+		}
+	}
+	mu.Unlock()
+}
+
+func SignalIgnore(sig ...os.Signal) {
+	mu.Lock()
+	sigRegs = append(sigRegs, &sigReg{sigs: sig})
+	mu.Unlock()
+}
+
+func SignalReset(sig ...os.Signal) {
+	mu.Lock()
+	sigRegs = nil
+	mu.Unlock()
+}
+
+// Flock stands in for syscall.Flock: a file on which another process holds a lock for the whole run can
+// be locked with LOCK_NB only (EWOULDBLOCK); a blocking request never returns.
+func Flock(fd int, how int) error {
+	use("flock")
+	mu.Lock()
+	name := fdNames[uintptr(fd)]
+	locked := false
+	if cur != nil {
+		for _, p := range cur.LockedPaths {
+			if a, err := filepath.Abs(p); err == nil {
+				if b, err := filepath.Abs(name); err == nil && a == b && name != "" {
+					locked = true
+				}
+			}
+		}
+	}
+	mu.Unlock()
+	if locked && how&syscall.LOCK_UN == 0 {
+		if how&syscall.LOCK_NB != 0 {
+			return syscall.EWOULDBLOCK
+		}
+		panic(Unbounded{"flock on " + name + " waits for a lock that another process holds for ever"})
+	}
+	return nil
+}
+
+var fdNames = map[uintptr]string{}
